@@ -361,7 +361,9 @@ def xmlStart (c : XCfg) (n : Node) (st : XSt) : Except Err XSt :=
   | .elt name attrs kids =>
     let st := xmlTag c .none name st
     let st := if c.lang.attrs.isSome then attrs.foldl (fun st a => xmlAttr c a st) st else st
-    .ok (xmlEndAttrs c kids st)
+    let st := xmlEndAttrs c kids st
+    -- `<name/>` is a complete element: what is encoded next is not its content
+    .ok (if kids.isEmpty then { st with curTag := none } else st)
   | _ => .error (.ub "raw element start of a node that is not an element (node->name is NULL)")
 
 /-- `parse_element_end` for XML output. -/
